@@ -49,7 +49,11 @@ theorem readVarlena_total (data : Bytes) : ∃ r, readVarlena data = .ok r := by
         rw [slice_ok _ _ _ (by omega) (by omega)]
         exact ⟨_, rfl⟩
     · split
-      · exact ⟨_, rfl⟩
+      · split
+        · rename_i h18
+          rw [idx_ok _ _ (by omega)]
+          exact ⟨_, rfl⟩
+        · exact ⟨_, rfl⟩
       · split
         · exact ⟨_, rfl⟩
         · rename_i h4
@@ -173,7 +177,7 @@ theorem decompressLZ4_total (data : Bytes) (raw : Nat) : ∃ r, Lz4.decompressLZ
   · exact ⟨_, rfl⟩
   · exact lz4_loop_total ..
 
-theorem decompressStored_total (zlib : Bytes → Option Bytes) (p : Ptr) (data : Bytes) (h : 4 ≤ data.length) :
+theorem decompressStored_total (zlib : Bytes → Nat → Option Bytes) (p : Ptr) (data : Bytes) (h : 4 ≤ data.length) :
     ∃ r, decompressStored zlib p data = .ok r := by
   unfold decompressStored
   rw [sliceFrom_ok _ _ h]
@@ -194,7 +198,7 @@ theorem decompressStored_total (zlib : Bytes → Option Bytes) (p : Ptr) (data :
     | some d => simp only []; split <;> (try split) <;> exact ⟨_, rfl⟩
     | none => simp only []; split <;> exact ⟨_, rfl⟩
 
-theorem reassembleTOAST_total (zlib : Bytes → Option Bytes) (chunks : List Chunk) (valueID : Nat) (ptr : Option Ptr) :
+theorem reassembleTOAST_total (zlib : Bytes → Nat → Option Bytes) (chunks : List Chunk) (valueID : Nat) (ptr : Option Ptr) :
     ∃ r, reassembleTOAST zlib chunks valueID ptr = .ok r := by
   unfold reassembleTOAST
   simp only [pure_eq_ok, ok_bind]
@@ -213,7 +217,7 @@ theorem reassembleTOAST_total (zlib : Bytes → Option Bytes) (chunks : List Chu
         exact ⟨_, rfl⟩
       · exact ⟨_, rfl⟩
 
-theorem readValue_tail (zlib : Bytes → Option Bytes) (p : Ptr) (r : Reader) (t : List (Nat × List Chunk)) :
+theorem readValue_tail (zlib : Bytes → Nat → Option Bytes) (p : Ptr) (r : Reader) (t : List (Nat × List Chunk)) :
     ∃ x, (match t.lookup p.toastRelID with
       | none => (pure (none, { r with tables := t }) : M (Option Bytes × Reader))
       | some cs => do pure (← reassembleTOAST zlib cs p.valueID (some p), { r with tables := t })) = .ok x := by
@@ -224,7 +228,7 @@ theorem readValue_tail (zlib : Bytes → Option Bytes) (p : Ptr) (r : Reader) (t
     simp only [hx, ok_bind]
     exact ⟨_, rfl⟩
 
-theorem readValue_total (zlib : Bytes → Option Bytes) (readFile : Nat → Option Bytes) (r : Reader) (data : Bytes) :
+theorem readValue_total (zlib : Bytes → Nat → Option Bytes) (readFile : Nat → Option Bytes) (r : Reader) (data : Bytes) :
     ∃ x, readValue zlib readFile r data = .ok x := by
   unfold readValue
   obtain ⟨p, hp⟩ := parseTOASTPointer_total data
@@ -245,8 +249,15 @@ theorem readValue_total (zlib : Bytes → Option Bytes) (readFile : Nat → Opti
     · simp only [pure_eq_ok, ok_bind]
       exact readValue_tail zlib p r _
 
+theorem getTOASTVerboseInfoWith_total (π : GroupOrder) (relid : Nat) (data : Bytes) :
+    ∃ r, getTOASTVerboseInfoWith π relid data = .ok r := by
+  unfold getTOASTVerboseInfoWith
+  obtain ⟨cs, hcs⟩ := readTOASTTable_total data
+  simp only [hcs, ok_bind]
+  split <;> exact ⟨_, rfl⟩
+
 theorem getTOASTVerboseInfo_total (relid : Nat) (data : Bytes) : ∃ r, getTOASTVerboseInfo relid data = .ok r := by
-  unfold getTOASTVerboseInfo
+  unfold getTOASTVerboseInfo getTOASTVerboseInfoWith
   obtain ⟨cs, hcs⟩ := readTOASTTable_total data
   simp only [hcs, ok_bind]
   split <;> exact ⟨_, rfl⟩
